@@ -3,21 +3,39 @@
 // phase) persists, to a fixpoint under a time cap.  Labelled PRNG streams keep unrelated draws
 // stable when something is removed, so shrinking converges instead of stopping at the first
 // candidate that happens not to fail.
-use super::monitors;
 use super::plan::*;
-use super::run;
 use serde_json::json;
 use std::time::Instant;
 
 fn arg(args: &[String], name: &str) -> Option<String> {
-	args.iter().position(|a| a == name).and_then(|i| args.get(i + 1)).cloned()
+	args.iter()
+		.position(|a| a == name)
+		.and_then(|i| args.get(i + 1))
+		.cloned()
+}
+
+fn vkey(v: &serde_json::Value) -> String {
+	// same as Violation::key(): property|kind|cause|phase
+	format!(
+		"{}|{}|{}|{}",
+		v["property"].as_str().unwrap_or(""),
+		v["kind"].as_str().unwrap_or(""),
+		v["cause"].as_str().unwrap_or(""),
+		v["phase"].as_str().unwrap_or("")
+	)
+}
+
+/// every candidate runs in its own process image, like every other run (child.rs)
+fn run_for(plan: &Plan, prop: &str, key: &str) -> Option<serde_json::Value> {
+	let iso = super::child::run_isolated(plan, &[prop.to_string()], false, false);
+	if iso.harness_error {
+		return None;
+	}
+	iso.record["violations"].as_array().and_then(|a| a.iter().find(|v| vkey(v) == key).cloned())
 }
 
 fn fails(plan: &Plan, prop: &str, key: &str) -> bool {
-	let r = run::run_plan(plan);
-	let ok = r.harness_error.is_none() && monitors::check(prop, &r).violations.iter().any(|v| v.key() == key);
-	run::cleanup(&r);
-	ok
+	run_for(plan, prop, key).is_some()
 }
 
 fn remove_cert(p: &Plan, i: usize) -> Option<Plan> {
@@ -34,7 +52,9 @@ fn remove_cert(p: &Plan, i: usize) -> Option<Plan> {
 			}
 		}
 	}
-	q.world.pre_files.retain(|f| !f.target.ends_with(&format!(":{}", i)));
+	q.world
+		.pre_files
+		.retain(|f| !f.target.ends_with(&format!(":{}", i)));
 	for f in q.world.pre_files.iter_mut() {
 		if let Some(pos) = f.target.find(':') {
 			if let Ok(c) = f.target[pos + 1..].parse::<usize>() {
@@ -64,7 +84,8 @@ fn remove_cert(p: &Plan, i: usize) -> Option<Plan> {
 			_ => {}
 		}
 	}
-	q.ops.retain(|op| !matches!(op, Op::RemoveFile { cert, .. } if *cert == usize::MAX));
+	q.ops
+		.retain(|op| !matches!(op, Op::RemoveFile { cert, .. } if *cert == usize::MAX));
 	Some(q)
 }
 
@@ -123,30 +144,52 @@ fn candidates(p: &Plan) -> Vec<Plan> {
 	// shrink runs
 	for (i, op) in p.ops.iter().enumerate() {
 		match op {
-			Op::Run { attempts, max_virtual_s, only } => {
+			Op::Run {
+				attempts,
+				max_virtual_s,
+				only,
+			} => {
 				if *attempts > 1 {
 					for a in [1, attempts / 2, attempts - 1].iter() {
 						if *a >= 1 && a < attempts {
 							let mut q = p.clone();
-							q.ops[i] = Op::Run { attempts: *a, max_virtual_s: *max_virtual_s, only: only.clone() };
+							q.ops[i] = Op::Run {
+								attempts: *a,
+								max_virtual_s: *max_virtual_s,
+								only: only.clone(),
+							};
 							out.push(q);
 						}
 					}
 				}
 				if *max_virtual_s > 600 {
 					let mut q = p.clone();
-					q.ops[i] = Op::Run { attempts: *attempts, max_virtual_s: max_virtual_s / 4, only: only.clone() };
+					q.ops[i] = Op::Run {
+						attempts: *attempts,
+						max_virtual_s: max_virtual_s / 4,
+						only: only.clone(),
+					};
 					out.push(q);
 				}
 			}
 			Op::RunFor { virtual_s } if *virtual_s > 60 => {
 				let mut q = p.clone();
-				q.ops[i] = Op::RunFor { virtual_s: virtual_s / 2 };
+				q.ops[i] = Op::RunFor {
+					virtual_s: virtual_s / 2,
+				};
 				out.push(q);
 			}
-			Op::CrashAt { kind, nth, max_virtual_s } if *nth > 1 => {
+			Op::CrashAt {
+				kind,
+				nth,
+				max_virtual_s,
+			} if *nth > 1 => {
 				let mut q = p.clone();
-				q.ops[i] = Op::CrashAt { kind: kind.clone(), nth: nth - 1, max_virtual_s: *max_virtual_s };
+				q.ops[i] = Op::CrashAt {
+					kind: kind.clone(),
+					nth: nth - 1,
+					max_virtual_s: *max_virtual_s,
+				};
 				out.push(q);
 			}
 			Op::Edit { patch } if patch.len() > 1 => {
@@ -325,7 +368,9 @@ pub fn main(args: &[String]) -> i32 {
 	};
 	let prop = arg(args, "--props").unwrap_or_default();
 	let key = arg(args, "--key").unwrap_or_default();
-	let budget: u64 = arg(args, "--budget").and_then(|s| s.parse().ok()).unwrap_or(60);
+	let budget: u64 = arg(args, "--budget")
+		.and_then(|s| s.parse().ok())
+		.unwrap_or(60);
 	let plan = match super::worker::load_plan(&path) {
 		Ok(p) => p,
 		Err(e) => {
@@ -334,15 +379,15 @@ pub fn main(args: &[String]) -> i32 {
 		}
 	};
 	if !fails(&plan, &prop, &key) {
-		eprintln!("shrink: the plan does not show violation {} (nondeterminism?)", key);
+		eprintln!(
+			"shrink: the plan does not show violation {} (nondeterminism?)",
+			key
+		);
 		return 2;
 	}
 	let (min, accepted, tried) = minimise(&plan, &prop, &key, budget);
 	// the violation record as produced by the minimal plan
-	let r = run::run_plan(&min);
-	let v = monitors::check(&prop, &r).violations.into_iter().find(|v| v.key() == key);
-	run::cleanup(&r);
-	let _ = std::fs::remove_dir_all(run::scratch_base());
+	let v = run_for(&min, &prop, &key);
 	let doc = json!({
 		"plan": min,
 		"violation": v,
